@@ -1497,13 +1497,38 @@ void SPxMainSM<R>::AggregationPS::execute(VectorBase<R>& x, VectorBase<R>& y, Ve
    r[m_j] = 0.0;
 
    // basis:
-   if(((cStatus[active_idx] == SPxSolverBase<R>::ON_UPPER
-         || cStatus[active_idx] == SPxSolverBase<R>::FIXED)
-         && NE(x[active_idx], m_oldupper, this->feastol())) ||
-         ((cStatus[active_idx] == SPxSolverBase<R>::ON_LOWER
-           || cStatus[active_idx] == SPxSolverBase<R>::FIXED)
-          && NE(x[active_idx], m_oldlower, this->feastol())))
+   // x_k has to enter the basis iff the bound it sits at is not one of its own (old) bounds but was implied by a bound
+   // of x_j.  A FIXED x_k has one own and one implied bound (or two own ones): it can stay non-basic at its own bound
+   // only if the sign of its reduced cost allows that bound (the simplifier works in minimization form)
+   bool activeToBasis = false;
+
+   if(cStatus[active_idx] == SPxSolverBase<R>::ON_UPPER)
+      activeToBasis = NE(x[active_idx], m_oldupper, this->feastol());
+   else if(cStatus[active_idx] == SPxSolverBase<R>::ON_LOWER)
+      activeToBasis = NE(x[active_idx], m_oldlower, this->feastol());
+   else if(cStatus[active_idx] == SPxSolverBase<R>::FIXED)
    {
+      bool atOldUpper = EQ(x[active_idx], m_oldupper, this->feastol());
+      bool atOldLower = EQ(x[active_idx], m_oldlower, this->feastol());
+
+      if(atOldUpper && atOldLower)
+         activeToBasis = false;
+      else if(atOldUpper && r[active_idx] <= 0.0)
+         cStatus[active_idx] = SPxSolverBase<R>::ON_UPPER;
+      else if(atOldLower && r[active_idx] >= 0.0)
+         cStatus[active_idx] = SPxSolverBase<R>::ON_LOWER;
+      else
+         activeToBasis = true;
+   }
+
+   if(activeToBasis)
+   {
+      // x_k enters the basis: its reduced cost becomes zero, so the dual of the aggregated row has to absorb it, and the
+      // reduced cost of x_j, which becomes non-basic at the bound that had been moved onto x_k, is the scaled reduced
+      // cost of x_k:   r_k = r'_k - a_ik * (y_i - z / a_ij) = 0   and   r_j = -(a_ij / a_ik) * r'_k
+      R aik = m_row[active_idx];
+      y[m_i] += r[active_idx] / aik;
+      r[m_j] = -(aij / aik) * r[active_idx];
       cStatus[active_idx] = SPxSolverBase<R>::BASIC;
       r[active_idx] = 0.0;
       assert(NE(m_upper, m_lower, this->epsilon()));
